@@ -18,6 +18,7 @@ import (
 	"go/constant"
 	"go/token"
 	"go/types"
+	"sort"
 	"strings"
 
 	"golang.org/x/tools/go/packages"
@@ -136,6 +137,60 @@ func init() {
 		levelOff, levelSz := fieldOff("UserLevel")
 		idOff, idSz := fieldOff("UserID")
 		lastLoginOff, _ := fieldOff("LastLogin")
+		pwOff, pwSz := fieldOff("PasswdHash")
+		emOff, emSz := fieldOff("Email")
+
+		// ---- which functions of package ptt write .PASSWDS, and how: through a field writer of cmbbs
+		// (PasswdUpdatePasswd, PasswdUpdateEmail, ...), through passwdSyncUpdate (whole record, Money re-synced from
+		// SHM first), or through cmbbs.PasswdUpdate directly (whole record, no re-sync).
+		pp := l.load("ptt")
+		type wr struct{ fn, kind string }
+		var writers []wr
+		for _, file := range pp.Syntax {
+			for _, d := range file.Decls {
+				fd, ok := d.(*ast.FuncDecl)
+				if !ok || fd.Body == nil || fd.Recv != nil || fd.Name.Name == "passwdSyncUpdate" {
+					continue
+				}
+				if strings.HasSuffix(pp.Fset.Position(fd.Pos()).Filename, "_test.go") {
+					continue
+				}
+				kinds := map[string]bool{}
+				ast.Inspect(fd.Body, func(n ast.Node) bool {
+					call, ok := n.(*ast.CallExpr)
+					if !ok {
+						return true
+					}
+					name := ""
+					switch f := call.Fun.(type) {
+					case *ast.SelectorExpr:
+						name = f.Sel.Name
+					case *ast.Ident:
+						name = f.Name
+					}
+					switch {
+					case name == "passwdSyncUpdate":
+						kinds["sync"] = true
+					case name == "PasswdUpdate":
+						kinds["direct"] = true
+					case strings.HasPrefix(name, "PasswdUpdate"):
+						kinds["field"] = true
+					}
+					return true
+				})
+				for _, k := range []string{"direct", "field", "sync"} {
+					if kinds[k] {
+						writers = append(writers, wr{fd.Name.Name, k})
+					}
+				}
+			}
+		}
+		sort.Slice(writers, func(i, j int) bool {
+			if writers[i].fn != writers[j].fn {
+				return writers[i].fn < writers[j].fn
+			}
+			return writers[i].kind < writers[j].kind
+		})
 
 		// ---- the loader (cache.userecRawAddToUHash): which SHM arrays the "fill the slot from its record" block
 		// assigns unconditionally and which only under `if ptttype.USE_COOLDOWN`.  The block is the body of the
@@ -321,6 +376,18 @@ func init() {
 		lf.nat("userIDOffset", idOff)
 		lf.nat("userIDSize", idSz)
 		lf.nat("lastLoginOffset", lastLoginOff)
+		lf.nat("passwdHashOffset", pwOff)
+		lf.nat("passwdHashSize", pwSz)
+		lf.nat("emailOffset", emOff)
+		lf.nat("emailSize", emSz)
+		lf.raw("\n/- package ptt: the functions that write .PASSWDS and how: \"field\" (a cmbbs field writer), \"sync\" (whole record\n   through passwdSyncUpdate: Money re-synced from SHM first), \"direct\" (whole record through cmbbs.PasswdUpdate) -/\n")
+		{
+			var items []string
+			for _, w := range writers {
+				items = append(items, fmt.Sprintf("(%q, %q)", w.fn, w.kind))
+			}
+			lf.raw("def passwdWriters : List (String × String) := [" + strings.Join(items, ", ") + "]\n")
+		}
 		lf.raw("\n/- cache.userecRawAddToUHash: SHM arrays assigned in the `if !isOnfly || Cstrcmp(...) != 0` block -/\n")
 		lf.nat("preAllocatedUsers", constInt(pc, "PRE_ALLOCATED_USERS"))
 		lf.raw("def loaderCopies : List String := " + quote(loaderCopies) + "\n")
